@@ -1,9 +1,11 @@
 package main
 
 import (
+	"bufio"
 	"bytes"
 	"encoding/hex"
 	"fmt"
+	"io"
 	"reflect"
 	"sort"
 	"strings"
@@ -101,6 +103,7 @@ func realEncode(v interface{}) (out string, written []byte, perr string) {
 		err = kmip.NewEncoder(w).Encode(v)
 	}()
 	written = w.buf.Bytes()
+	encodeIntoBuffers(v, written, err != nil, perr != "")
 	switch {
 	case perr != "":
 		return "panic", written, perr
@@ -109,6 +112,77 @@ func realEncode(v interface{}) (out string, written []byte, perr string) {
 	default:
 		return "ok " + hx(written), written, ""
 	}
+}
+
+// destFindings: the same value encoded into the destinations applications really use - a *bytes.Buffer that already holds
+// something, a *bufio.Writer - must come out the same way as into the plain recording io.Writer: same outcome, same bytes,
+// nothing at all when Encode fails, what was there before left alone. Collected here, reported by the properties they concern
+// (C13: a failed Encode writes nothing; C02: the encoding is a function of the value).
+var (
+	destMu       sync.Mutex
+	destFindings []Finding
+	destRuns     int
+)
+
+func encodeIntoBuffers(v interface{}, ref []byte, refErr, refPanic bool) {
+	prefix := []byte{0xde, 0xad, 0xbe}
+	run := func(name string, mk func() (io.Writer, func() []byte)) {
+		w, result := mk()
+		var err error
+		panicked := false
+		func() {
+			defer func() {
+				if p := recover(); p != nil {
+					panicked = true
+				}
+			}()
+			err = kmip.NewEncoder(w).Encode(v)
+		}()
+		got := result()
+		want := append(append([]byte(nil), prefix...), ref...)
+		destMu.Lock()
+		defer destMu.Unlock()
+		destRuns++
+		if len(destFindings) >= 6 {
+			return
+		}
+		in := map[string]string{"go": fmt.Sprintf("%T", v), "destination": name + " already holding de ad be"}
+		func() {
+			defer func() { _ = recover() }()
+			in["value"] = render.Top(v)
+		}()
+		switch {
+		case panicked != refPanic || (err != nil) != refErr:
+			destFindings = append(destFindings, Finding{Kind: "violation", What: "the outcome of Encode depends on the kind of destination", Input: in,
+				Expect: fmt.Sprintf("error=%v panic=%v (into a plain io.Writer)", refErr, refPanic), Actual: fmt.Sprintf("error=%v panic=%v", err != nil, panicked)})
+		case (refErr || refPanic) && !bytes.Equal(got, prefix):
+			destFindings = append(destFindings, Finding{Kind: "violation", What: "a failed Encode wrote to (or altered) its destination", Input: in,
+				Expect: "destination still holds de ad be only", Actual: hx(got)})
+		case !refErr && !refPanic && !bytes.Equal(got, want):
+			destFindings = append(destFindings, Finding{Kind: "violation", What: "Encode's output depends on the kind of destination (or it disturbed what the destination held)", Input: in,
+				Expect: hx(want), Actual: hx(got)})
+		}
+	}
+	run("*bytes.Buffer", func() (io.Writer, func() []byte) {
+		b := bytes.NewBuffer(append(make([]byte, 0, 64), prefix...))
+		return b, b.Bytes
+	})
+	run("*bufio.Writer over a *bytes.Buffer", func() (io.Writer, func() []byte) {
+		b := &bytes.Buffer{}
+		bw := bufio.NewWriterSize(b, 16)
+		_, _ = bw.Write(prefix)
+		return bw, func() []byte { _ = bw.Flush(); return b.Bytes() }
+	})
+}
+
+func drainDestFindings(r *Result) {
+	destMu.Lock()
+	defer destMu.Unlock()
+	for _, f := range destFindings {
+		r.find(f)
+	}
+	r.Stats["encode-into-bytes.Buffer/bufio.Writer-runs"] = destRuns
+	destFindings = nil
 }
 
 func typeNames(m map[string]reflect.Type) []string {
@@ -270,6 +344,7 @@ func genEncCasesOpt(g *gen.G, n int, types map[string]reflect.Type, anyPrimsToo 
 }
 
 func runC02(r *Result, d *drv.Driver, tier string, seed int64, replay string) {
+	defer drainDestFindings(r)
 	n := 6000
 	rounds := 1
 	if tier == "thorough" {
